@@ -68,6 +68,9 @@ FieldTypes(types, ty, ci) ==
         fs  == def.cs[ci].fs
     IN  [i \in 1..Len(fs) |-> SubstTy(fs[i], m)]
 
+\* a record declared `@list` is encoded as the plain list of its fields (no constructor)
+ListEnc(def) == "enc" \in DOMAIN def /\ def.enc = "list"
+
 \* the tag a constructor is published under (declaration order unless decorated)
 TagOf(def, ci) == IF "tag" \in DOMAIN def.cs[ci] THEN def.cs[ci].tag ELSE ci - 1
 
@@ -87,7 +90,8 @@ ToData(types, ty, val) ==
       [] ty.t = "Tuple"     -> DL(ToDataSeq(types, ty.es, val.xs))
       [] ty.t = "Pair"      -> DL(<<ToData(types, ty.a, val.a), ToData(types, ty.b, val.b)>>)
       [] ty.t = "adt"       ->
-            DC(TagOf(types[ty.n], val.i + 1), ToDataSeq(types, FieldTypes(types, ty, val.i + 1), val.fs))
+            IF ListEnc(types[ty.n]) THEN DL(ToDataSeq(types, FieldTypes(types, ty, 1), val.fs))
+            ELSE DC(TagOf(types[ty.n], val.i + 1), ToDataSeq(types, FieldTypes(types, ty, val.i + 1), val.fs))
 
 \* FromData: [ok |-> TRUE, v |-> value] or [ok |-> FALSE]   (what `expect _: T = d` accepts)
 NoV == [ok |-> FALSE]
@@ -121,7 +125,11 @@ FromData(types, ty, d) ==
             ELSE LET r == FromDataSeq(types, <<ty.a, ty.b>>, d.v, <<>>) IN
                  IF r.ok THEN YesV(VPair(r.v[1], r.v[2])) ELSE NoV
       [] ty.t = "adt"       ->
-            IF d.d # "C" THEN NoV
+            IF ListEnc(types[ty.n]) THEN
+                (LET fts == FieldTypes(types, ty, 1) IN
+                 IF d.d # "L" \/ Len(d.v) # Len(fts) THEN NoV
+                 ELSE LET r == FromDataSeq(types, fts, d.v, <<>>) IN IF r.ok THEN YesV(VCon(ty.n, 0, r.v)) ELSE NoV)
+            ELSE IF d.d # "C" THEN NoV
             ELSE LET def == types[ty.n]
                      hit == {ci \in 1..Len(def.cs) : TagOf(def, ci) = d.tag}
                  IN  IF hit = {} THEN NoV
